@@ -3,13 +3,16 @@ package vcrash
 import (
 	"fmt"
 	"math/rand/v2"
+	"os"
 	"strings"
 	"testing"
 
 	"github.com/NethermindEth/juno/core"
 	"github.com/NethermindEth/juno/core/crypto"
 	"github.com/NethermindEth/juno/core/felt"
+	"github.com/NethermindEth/juno/db"
 	"github.com/NethermindEth/juno/db/memory"
+	"github.com/NethermindEth/juno/db/pebblev2"
 	"github.com/NethermindEth/juno/verifh/lib"
 	"github.com/NethermindEth/juno/verifh/lib/chain"
 )
@@ -447,8 +450,31 @@ func runCase(r *lib.Run, idx int, long bool) {
 		}
 	}
 
+	// ---- phase 1b: the same on a real pebble store with real process deaths (every 4th short script)
+	onPebble := !long && idx%4 == 2 && !r.Race
+	if onPebble {
+		pebblePhase(r, idx, &prepared{s: s, newState: newState, backend: backend}, bound, total)
+	}
+
 	// ---- phase 2: injected write/commit/read errors on a live node vs a live twin
-	rec := chain.NewRecDB(memory.New())
+	var inner db.KeyValueStore = memory.New()
+	if onPebble {
+		dir, err := os.MkdirTemp("", "verif-c05-live-")
+		if err != nil {
+			r.Inconclusive("pebble:no-scratch-dir")
+			return
+		}
+		defer os.RemoveAll(dir)
+		pdb, err := pebblev2.New(dir)
+		if err != nil {
+			r.Inconclusive("pebble:open")
+			return
+		}
+		defer pdb.Close()
+		inner = pdb
+		r.Count("pebble.live_fault_scripts", 1)
+	}
+	rec := chain.NewRecDB(inner)
 	N := chain.NewNode(rec, newState)
 	T := chain.NewMemNode(newState)
 	ps := chain.NewProbeSet()
@@ -576,7 +602,8 @@ func TestC05(t *testing.T) {
 		r.Cases(nl, 0, func(idx int) { runCase(r, idx, true) })
 	}
 	r.Assume("crash = the durable state is exactly the first k committed write-sets (batch commit is atomic; this is the contract of db.Batch, checked for the backends by C15)")
-	r.Assume("in-memory backend; pruning interruptions are enumerated by C16 with its own oracle")
+	r.Assume("in-memory backend for the exhaustive enumeration; every 4th short script additionally runs on an on-disk pebblev2 store: a child process executes it and dies (os.Exit inside the commit hook, no Close) after sampled committed writes (all of them in the thorough tier), the parent reopens the directory; the live-fault phase of those scripts also runs on pebble. A process death leaves the page cache intact: loss of unsynced data on power failure is not observable this way")
+	r.Assume("pruning interruptions are enumerated by C16 with its own oracle")
 	r.Finish("case = script of 10-18 ops over {store, revert, re-store a reverted block, set L1 head, persist event-filter snapshot, graceful / ungraceful restart} on each state backend (plus long scripts that straddle the 8192-block bloom-window edge); "+
 		"phase 1 enumerates EVERY committed write k: a fresh node on the image after k must describe exactly the chain before or after the in-flight op (blocks, txs, receipts, lookups, no stale lookups of other blocks, event query == naive scan, tries commit to the head root, model state) and accept another block; "+
 		"phase 2 injects a failing commit / batch put / read into ops of a live node: a failed op must leave the live node observationally equal (exhaustive probe incl. event queries) to a twin that never attempted it, and the retry must succeed; distinct = distinct (script, final hash)", 15)
